@@ -402,7 +402,7 @@ def main(argv=None):
         'coverage': coverage, 'assumptions': meta.get('assumptions', []), 'wall_s': round(wall, 2),
         'violations': len(real),
     }
-    if args.replay is None:
+    if args.replay is None and not os.environ.get('VERIF_NO_EVIDENCE'):
         os.makedirs(os.path.join(VERIF, 'evidence'), exist_ok=True)
         with open(os.path.join(VERIF, 'evidence', f'{prop}.json'), 'w') as f:
             json.dump(evidence, f, indent=1, sort_keys=True)
@@ -418,13 +418,13 @@ def main(argv=None):
         e = next(e for e in open_entries if e['id'] == eid)
         print(f"KNOWN-FINDING: property={prop} {eid}: {e.get('what_fails', e.get('mechanism', ''))} [{len(ws)} occurrence(s) this run]")
     if real:
-        os.makedirs(os.path.join(VERIF, 'replay'), exist_ok=True)
+        os.makedirs(os.path.join(VERIF, os.environ.get('VERIF_REPLAY_DIR', 'replay')), exist_ok=True)
         seen = set()
         n = 0
         for w in real:
             sig = (w['kind'], json.dumps(w.get('mechanism', ''), sort_keys=True))
             n += 1
-            path = os.path.join('replay', f'{prop}-{seed}-{n}.json')
+            path = os.path.join(os.environ.get('VERIF_REPLAY_DIR', 'replay'), f'{prop}-{seed}-{n}.json')
             with open(os.path.join(VERIF, path), 'w') as f:
                 json.dump(w, f, indent=1, sort_keys=True)
             if sig in seen and n > 12:
